@@ -114,21 +114,13 @@ def _parse_value(s, i):
 def parse_prints(out):
     """Every PrintT(<<"TAG", ...>>) value in TLC's output, robust to interleaving and line wrapping."""
     res = []
-    i = 0
-    while True:
-        i = out.find('<<"', i)
-        if i < 0:
-            break
-        # only accept when at start of line
-        if i > 0 and out[i - 1] != "\n":
-            i += 3
-            continue
+    # TLC wraps long tuples over several lines and then writes `<< "TAG",`
+    for m in re.finditer(r'^<<\s*"', out, flags=re.M):
         try:
-            v, j = _parse_value(out, i)
+            v, _j = _parse_value(out, m.start())
             res.append(v)
-            i = j
         except (ValueError, IndexError):
-            i += 3
+            continue
     return res
 
 
